@@ -71,7 +71,12 @@ func cmdFunc(args []string) {
 			fmt.Println("no such function:", n)
 			continue
 		}
-		c := pr.verifyFunction(fn)
+		var c *Ctx
+		if relMode {
+			c = pr.verifyRelational(fn)
+		} else {
+			c = pr.verifyFunction(fn)
+		}
 		for _, e := range c.errs {
 			fmt.Printf("GENERR %s: %s\n", n, e)
 		}
@@ -129,6 +134,8 @@ func cmdFunc(args []string) {
 	fmt.Printf("%d obligations, %d not discharged, %.1fs\n", len(all), bad, time.Since(t0).Seconds())
 }
 
+var relMode bool
+
 func main() {
 	flag.Parse()
 	args := flag.Args()
@@ -138,6 +145,9 @@ func main() {
 	}
 	switch args[0] {
 	case "func":
+		cmdFunc(args[1:])
+	case "rel":
+		relMode = true
 		cmdFunc(args[1:])
 	case "ssa":
 		cmdSSA(args[1:])
